@@ -11,7 +11,7 @@
  *                           finalizers run, then the user releases what it still owns, then
  *                           event_base_free, libevent_global_shutdown
  *                       1 = no loop pass: release what may be released, event_base_free at once
- * What the solver still chooses inside a shape: activation result flags.  -DC10_FIN_FREES: the finalizer of
+ * What the solver still chooses inside a shape: the activation result flags (one unmerged history per value).  -DC10_FIN_FREES: the finalizer of
  * event_finalize() is where the user releases the event's memory.
  * Monitors (per event, indexed by a tag that is the callback argument -- never the event memory):
  *     released   set by the call that releases the event (event_free, event_free_finalize,
@@ -88,6 +88,8 @@ static struct event *A, *B;
 static int nonce, nonce_i[3], once_requested, once_due;
 static int cbact_done;
 static int alloc_fail_next;
+static int g_res;             /* result flags of event_active(A): solver-picked, one unmerged history per value (a symbolic
+                               * EV_TIMEOUT bit decides in event_add_nolock_ whether A leaves the active queue: symbolic heap) */
 
 /* typed allocation, see C08_event_api.c */
 void *c10_malloc(size_t sz)
@@ -205,7 +207,7 @@ static void do_op(int op)
 	case O_NOP: break;
 	case O_ADD: if (!mA.released) { r = event_add(A, &tv_1); if (r == 0) mA.deleted = 0; } break;
 	case O_ADD_NULL: if (!mA.released) { r = event_add(A, NULL); if (r == 0) mA.deleted = 0; } break;
-	case O_ACTIVE: if (a_usable()) { if (!mA.released) mA.deleted = 0; event_active(A, (int)(vp_u8() & (EV_READ | EV_WRITE | EV_TIMEOUT)), 1); } break;
+	case O_ACTIVE: if (a_usable()) { if (!mA.released) mA.deleted = 0; event_active(A, g_res, 1); } break;
 	case O_DEL: if (a_usable()) { r = event_del(A); mA.deleted = 1; } break;
 	case O_FINALIZE: if (!mA.released) u_finalize(&A, &mA); break;
 	case O_FREE_FINALIZE: if (!mA.released) u_free_finalize(&A, &mA); break;
@@ -232,6 +234,7 @@ static void release_user_objects(void)
 	if (!mB.released) u_free(&B, &mB);
 }
 
+static void history(void);
 void harness_lifetime(void)
 {
 	int r;
@@ -249,6 +252,14 @@ void harness_lifetime(void)
 	mA.exists = mB.exists = 1;
 	r = event_add(B, NULL); __CPROVER_assume(r == 0);
 
+	{ int c_ = (int)vp_range(0, 2);
+	  if (c_ == 0) { g_res = EV_READ; history(); } else if (c_ == 1) { g_res = EV_TIMEOUT; history(); } else { g_res = EV_READ | EV_WRITE; history(); } }
+	VP_WITNESS("end of harness (cbmc's memory-leak check applies here)");
+}
+
+static void history(void)
+{
+	int r;
 	do_op(C10_OP1);
 	do_op(C10_OP2);
 	do_op(C10_OP3);
@@ -280,5 +291,5 @@ void harness_lifetime(void)
 	if (mA.fin_requested && !mA.lib_owns_mem && !mA.mem_released) { mA.mem_released = 1; c10_free(A); }
 	libevent_global_shutdown();
 	VP_ASSERT_NO_LOCKS("teardown");
-	VP_WITNESS("end of harness (cbmc's memory-leak check applies here)");
+	(void)r;
 }
